@@ -1072,7 +1072,7 @@ def adapt_typehints(
             val = parser.parse_object(val, defaults=sub_defaults.get() or list_item)
         elif isinstance(val, NestedArg):
             prev_val = prev_val if isinstance(prev_val, Namespace) else None
-            val = parser.parse_args([f"--{val.key}={val.val}"], namespace=prev_val)
+            val = parser.parse_args([f"--{val.key}={nested_arg_text(val.val)}"], namespace=prev_val)
         else:
             raise_unexpected_value(f"Type {typehint} expects a dict or Namespace", val)
 
@@ -1396,6 +1396,16 @@ def discard_init_args_on_class_path_change(parser_or_action, prev_val, value):
             )
 
 
+def nested_arg_text(val) -> str:
+    """Text to hand a loaded nested value on to the nested parser: json, since the python repr is not valid yaml/json."""
+    if not isinstance(val, str):
+        with suppress(TypeError, ValueError):
+            import json
+
+            return json.dumps(val)
+    return str(val)
+
+
 def adapt_class_type(
     value, serialize, instantiate_classes, sub_add_kwargs, prev_val=None, skip_args=0, partial_classes=False
 ):
@@ -1447,7 +1457,7 @@ def adapt_class_type(
 
     if isinstance(init_args, NestedArg):
         value["init_args"] = parser.parse_args(
-            [f"--{init_args.key}={init_args.val}"],
+            [f"--{init_args.key}={nested_arg_text(init_args.val)}"],
             namespace=prev_init_args,
             defaults=sub_defaults.get(),
         )
